@@ -14,7 +14,11 @@ import (
 var fdFormulas = []struct {
 	name string
 	f    fd.Formula
-}{{"Forward", fd.Forward}, {"Backward", fd.Backward}, {"Central", fd.Central}, {"Central2nd", fd.Central2nd}, {"Forward2nd", fd.Forward2nd}, {"Backward2nd", fd.Backward2nd}}
+}{{"Forward", fd.Forward}, {"Backward", fd.Backward}, {"Central", fd.Central}, {"Central2nd", fd.Central2nd}, {"Forward2nd", fd.Forward2nd}, {"Backward2nd", fd.Backward2nd},
+	// a user formula whose stencil is the origin alone: legal (it passes the
+	// package's formula check), useless, and it must still return
+	{"origin only (first derivative)", fd.Formula{Stencil: []fd.Point{{Loc: 0, Coeff: 1}}, Derivative: 1, Step: 0.5}},
+	{"origin only (second derivative)", fd.Formula{Stencil: []fd.Point{{Loc: 0, Coeff: 1}}, Derivative: 2, Step: 0.5}}}
 
 // fdLog is the callback log of the fd scenario (norace; see callLog).
 type fdLog struct {
@@ -111,17 +115,27 @@ func drawFD(t *simrt.Tape) *fdInst {
 		in.formula = t.Choose(simrt.KWorkload, 6)
 	case 1, 2, 3, 5:
 		in.formula = t.Choose(simrt.KWorkload, 3) // first-derivative formulas (documented requirement)
+		if t.Choose(simrt.KWorkload, 12) == 11 {
+			in.formula = 6
+		}
 	default:
 		in.formula = 3 + t.Choose(simrt.KWorkload, 3) // second-derivative formulas
+		if t.Choose(simrt.KWorkload, 12) == 11 {
+			in.formula = 7
+		}
 	}
 	in.step = math.Ldexp(1, -1-t.Choose(simrt.KWorkload, 4)) // 1/2 .. 1/16
 	in.exact = t.Choose(simrt.KWorkload, 3) != 2
+	if !in.exact && t.Choose(simrt.KWorkload, 2) == 1 {
+		// a step whose reciprocal is not exact
+		in.step = []float64{0.1, 0.3, 1e-3}[t.Choose(simrt.KWorkload, 3)]
+	}
 	in.origin = t.Choose(simrt.KWorkload, 2) == 1
 	// Only Gradient evaluates f exclusively on private copies in its serial
 	// path too (the others hand the caller's own x to f for the origin), so
 	// only there is "the serial answer" defined for a callback that uses its
 	// argument as scratch space.
-	in.scribble = in.op == 1 && t.Choose(simrt.KWorkload, 2) == 1
+	in.scribble = t.Choose(simrt.KWorkload, 2) == 1
 	in.x = make([]float64, in.dim)
 	in.y = make([]float64, in.dim)
 	for i := range in.x {
@@ -334,6 +348,26 @@ func runFD(t *simrt.Tape, rc *RunCtx) *Violation {
 			return &Violation{prop, "fd/foreign-evaluation-point", fmt.Sprintf("%s (%s, Concurrent): f was evaluated at %v, which is neither the origin nor a point the serial evaluation uses", name, form.name, pt)}
 		}
 	}
+	// (a) "call the user function the documented number of times": as many
+	// calls as the serial evaluation makes, none of them at the origin when
+	// Settings says that the value there is known
+	rc.oracle("call-count")
+	if cLog.n != sLog.n {
+		return &Violation{prop, "fd/call-count", fmt.Sprintf("%s (%s, origin known: %v): f was called %d times with Concurrent, %d times serially", name, form.name, in.origin, cLog.n, sLog.n)}
+	}
+	usesOrigin := false
+	for _, p := range form.f.Stencil {
+		usesOrigin = usesOrigin || p.Loc == 0
+	}
+	// (a stencil without the origin can still reach it: x+h-h in a second
+	// order formula; those calls are not the origin term)
+	if in.origin && usesOrigin {
+		for _, l := range []*fdLog{sLog, cLog} {
+			if l.has(origin) {
+				return &Violation{prop, "fd/origin-evaluated-although-known", fmt.Sprintf("%s (%s): Settings.OriginKnown is set and f was still called at the origin %v (Concurrent: %v)", name, form.name, origin, l == cLog)}
+			}
+		}
+	}
 	// (b) the serial answer
 	rc.oracle("serial-answer")
 	if len(got) != len(serial) {
@@ -350,7 +384,14 @@ func runFD(t *simrt.Tape, rc *RunCtx) *Violation {
 		}
 	}
 	tol := float64(cLog.n+sLog.n+6) * 0x1p-53 * (cLog.absSum + sLog.absSum + 1) * maxCoef * maxCoef / math.Pow(in.step, float64(order)) * 2
+	// Gradient with a two-point stencil sums two terms per component: the
+	// order of a two-term sum is immaterial, so the reduction order is fixed
+	// and the answer is owed bit for bit, whatever the step
+	twoTermGradient := in.op == 1 && len(form.f.Stencil) == 2
 	for i := range got {
+		if twoTermGradient && !in.exact && math.Float64bits(got[i]) != math.Float64bits(serial[i]) && !(got[i] == 0 && serial[i] == 0) {
+			return &Violation{prop, "fd/serial-answer-bits/two-term-gradient", fmt.Sprintf("%s (%s, step %v): entry %d is %v with Concurrent, %v serially; each component is a two-term sum, whose order cannot matter", name, form.name, in.step, i, got[i], serial[i])}
+		}
 		if in.exact {
 			if math.Float64bits(got[i]) != math.Float64bits(serial[i]) && !(got[i] == 0 && serial[i] == 0) {
 				return &Violation{prop, "fd/serial-answer-bits", fmt.Sprintf("%s (%s, step %v, exact dyadic arithmetic): entry %d is %v with Concurrent, %v serially", name, form.name, in.step, i, got[i], serial[i])}
